@@ -104,6 +104,11 @@ class ZorgFileCompiler(ZorgFileListener):
         get_datetime = partial(
             dt.datetime.strptime, ctx.DATE().getText(), "%Y-%m-%d"
         )
+        try:
+            get_datetime()
+        except ValueError:
+            # e.g. 2024-02-30: matches the DATE token but is not a date
+            return
         if (
             self._s.in_note
             and self._s.ids_in_note == 1
